@@ -1,6 +1,6 @@
 (** Predictor versions: the version changes when and only when the stored fit changes (C10, C11). *)
 From Coq Require Import ZArith List Bool Arith Lia.
-From Flap Require Import Model.Num Model.Promises Model.Predictor.
+From Flap Require Import Model.Num Model.NumZ Model.Promises Model.Predictor.
 Import ListNotations.
 Open Scope Z_scope.
 
@@ -114,3 +114,65 @@ Lemma bf_predict_uninitialised (b : bestfit N) bal start : kltb N (bf_c b) (k0 N
 Proof. intros H. unfold bf_predict. rewrite H. reflexivity. Qed.
 
 End Poly.
+
+(** ---- the linear predictor never answers a day before the start day ----
+    Stated for every number instance that satisfies three facts about its conversions and order
+    (they hold for exact arithmetic - proved below for NumZ - and, by monotonicity of IEEE rounding,
+    for float64 at day magnitudes below 2^53; the float64 case is not proved here, it is what the
+    bit-exact correspondence and the monitors check). *)
+Section LinearNotEarly.
+Context {N : NumOps}.
+
+Record ConvLaws : Prop := {
+  (* a number above the image of an integer rounds up to at least that integer *)
+  ceil_above : forall z c, kltb N (kofZ N z) c = true -> z <= kceilZ N c;
+  (* adding a non-negative number to the image of an integer and rounding up does not go below it *)
+  ceil_add_nonneg : forall z x, kleb N (k0 N) x = true -> z <= kceilZ N (kadd N (kofZ N z) x);
+  (* the "no answer" marker is not below the last representable day *)
+  maxfloat_not_a_day : kltb N (kmaxfloat N) (kofZ N max_day) = false;
+  (* the marker compares equal to itself only *)
+  maxfloat_eq : forall c, keqb N c (kmaxfloat N) = true -> kltb N c (kofZ N max_day) = false }.
+
+Lemma choice_fold_above (b : bestfit N) fs (ends : list (K N)) : forall ch,
+  let r := fold_left (fun ch cand =>
+             if kltb N fs cand && kltb N cand ch && kltb N (k0 N) (bf_calc_y b cand) then cand else ch) ends ch in
+  r = ch \/ kltb N fs r = true.
+Proof.
+  induction ends as [|e t IH]; intros ch; cbn [fold_left]; [left; reflexivity|].
+  destruct (kltb N fs e && kltb N e ch && kltb N (k0 N) (bf_calc_y b e)) eqn:E.
+  - apply andb_true_iff in E. destruct E as [E _]. apply andb_true_iff in E. destruct E as [E _].
+    destruct (IH e) as [H|H]; right; [cbv zeta in H; rewrite H; exact E|exact H].
+  - apply IH.
+Qed.
+
+Theorem bf_predict_not_early (L : ConvLaws) (b : bestfit N) balance start z :
+  kleb N (k0 N) (kdiv N balance (last_y (bf_sm b))) = true ->     (* a non-negative distance over a positive share *)
+  bf_predict b balance start = Some z -> start <= z.
+Proof.
+  intros Hq. unfold bf_predict. destruct (kltb N (bf_c b) (k0 N)); [discriminate|].
+  set (fs := kofZ N start).
+  set (ends := qr _ _ _).
+  pose proof (choice_fold_above b fs ends (kmaxfloat N)) as Hch0. cbv zeta in Hch0.
+  set (ch0 := fold_left _ ends (kmaxfloat N)) in *.
+  destruct (keqb N ch0 (kmaxfloat N)) eqn:Eeq.
+  - destruct (sm_ys (bf_sm b)) as [|y0 ys] eqn:Eys.
+    + rewrite (maxfloat_eq L ch0 Eeq). discriminate.
+    + destruct (kltb N (kadd N fs (kdiv N balance (last_y (bf_sm b)))) (kofZ N max_day)); [|discriminate].
+      intros E. injection E as <-. apply (ceil_add_nonneg L). exact Hq.
+  - destruct (kltb N ch0 (kofZ N max_day)) eqn:Elt; [|discriminate].
+    intros E. injection E as <-.
+    destruct Hch0 as [H|H]; [rewrite H in Elt; rewrite (maxfloat_not_a_day L) in Elt; discriminate|].
+    apply (ceil_above L). exact H.
+Qed.
+
+End LinearNotEarly.
+
+(** exact arithmetic satisfies the three facts *)
+Lemma ConvLaws_NumZ : @ConvLaws NumZ.
+Proof.
+  constructor; cbn.
+  - intros z c H. apply Z.ltb_lt in H. lia.
+  - intros z x H. apply Z.leb_le in H. lia.
+  - vm_compute. reflexivity.
+  - intros c H. apply Z.eqb_eq in H. subst c. vm_compute. reflexivity.
+Qed.
